@@ -24,10 +24,12 @@ From PV Require Import Common.Util Trig.EventBase Gen.EventFlowConsts.
 Record deviations := {
   d_webhook_dup : bool;   (* D80: new subsystem: a function with a @webhook_trigger whose id is already registered
                                   fails to start ("Handler is already defined!") and never runs *)
-  d_ctx_shadow : bool     (* D81: the run's parent context is read back from the kwarg "context", so event data or
-                                  decorator kwargs with that key make the run lose the occurrence's context *)
+  d_ctx_shadow_legacy : bool;   (* D81 (legacy, trigger.py call_action) / D82 (new, decorator.py dispatch): the run's parent *)
+  d_ctx_shadow_new : bool       (* context is read back from the kwarg "context", so event data or decorator kwargs with
+                                   that key make the run lose the occurrence's context *)
 }.
-Definition all_off : deviations := {| d_webhook_dup := false; d_ctx_shadow := false |}.
+Definition all_off : deviations := {| d_webhook_dup := false; d_ctx_shadow_legacy := false; d_ctx_shadow_new := false |}.
+Definition all_on : deviations := {| d_webhook_dup := true; d_ctx_shadow_legacy := true; d_ctx_shadow_new := true |}.
 
 (* ---------- configuration and occurrences ---------- *)
 Record trigger := {
@@ -126,6 +128,8 @@ Record sys := {
   sy_live : nat -> bool          (* which decorators actually got their listener registered (D80) *)
 }.
 Definition trig_at (S : sys) (T : nat) : option trigger := nth_error (sy_trigs S) T.
+Definition ctx_shadow (S : sys) : bool :=
+  if sy_legacy S then d_ctx_shadow_legacy (sy_cfg S) else d_ctx_shadow_new (sy_cfg S).
 
 Definition run_kwargs (legacy : bool) (tr : trigger) (o : occ) : kwargs := kw_update (base_args legacy o) (t_kwargs tr).
 
@@ -157,7 +161,7 @@ Definition upd {A} (f : nat -> A) (i : nat) (x : A) : nat -> A := fun j => if Na
 (* mirrors call_action l.1369-1373 / dispatch l.269-273:
      if "context" in func_args and isinstance(func_args["context"], Context): Context(parent_id=...id) else Context() *)
 Definition mk_context (S : sys) (c : N) (K : kwargs) (mocc : option N) : ctxv :=
-  {| c_id := c; c_parent := if d_ctx_shadow (sy_cfg S) then ctx_parent_of (sy_legacy S) K else mocc |}.
+  {| c_id := c; c_parent := if ctx_shadow S then ctx_parent_of (sy_legacy S) K else mocc |}.
 
 (* ---------- LBus ---------- *)
 Definition deliver (S : sys) (T : nat) (o : occ) : list msg :=
@@ -212,11 +216,14 @@ Inductive action :=
   | ACall (c : ctxv)                                 (* service call: the call carries c *)
   | AInternal.                                       (* sleeping, computing *)
 
-Definition set_begun (rs : list run) (r : nat) : list run :=
-  map (fun ir => if Nat.eqb (fst ir) r
-                 then {| r_trig := r_trig (snd ir); r_func := r_func (snd ir); r_kwargs := r_kwargs (snd ir);
-                         r_ctx := r_ctx (snd ir); r_begun := true |}
-                 else snd ir) (combine (seq 0 (length rs)) rs).
+Definition mark_begun (x : run) : run :=
+  {| r_trig := r_trig x; r_func := r_func x; r_kwargs := r_kwargs x; r_ctx := r_ctx x; r_begun := true |}.
+Fixpoint set_begun (rs : list run) (r : nat) : list run :=
+  match rs, r with
+  | [], _ => []
+  | x :: rest, O => mark_begun x :: rest
+  | x :: rest, S r' => x :: set_begun rest r'
+  end.
 
 Definition emit (st : state) (e : emission) : state :=
   {| st_q := st_q st; st_occs := st_occs st; st_runs := st_runs st; st_acts := st_acts st ++ [e] |}.
@@ -280,7 +287,7 @@ Definition pending (S : sys) (T : nat) (q : list msg) : list (kwargs * option N)
   end.
 
 Definition expected_parent (S : sys) (tr : trigger) (o : occ) : option N :=
-  if d_ctx_shadow (sy_cfg S) then ctx_parent_of (sy_legacy S) (run_kwargs (sy_legacy S) tr o) else o_ctx o.
+  if ctx_shadow S then ctx_parent_of (sy_legacy S) (run_kwargs (sy_legacy S) tr o) else o_ctx o.
 
 (* what the model (with its deviations) will run for T, given everything handed over *)
 Definition model_runs (S : sys) (T : nat) (occs : list occ) : list (kwargs * option N) :=
